@@ -120,7 +120,7 @@ Definition check_case (c : case) : list nat :=
   (if opt_json_eqb (option_map norm (fed_exec w g first_owner false true (c_query c))) (c_answer c) then [] else [3]) ++
   (match c_ref c with
    | None => []
-   | Some r => if opt_json_eqb (option_map norm (eval_ref w g (depth_list (c_query c) + 2) "Query" 0%Z (c_query c))) (Some r)
+   | Some r => if opt_json_eqb (option_map norm (eval_ref w g false (2 * depth_list (c_query c) + 4) "Query" 0%Z (c_query c))) (Some r)
                then [] else [4]
    end) ++
   (* the premise of Props/C06.subquery_closed holds for this federation, and its conclusion holds of the plan
